@@ -2,6 +2,7 @@ package ischema
 
 import (
 	"fmt"
+	"sort"
 
 	"github.com/jsightapi/jsight-schema-core/bytes"
 	"github.com/jsightapi/jsight-schema-core/errs"
@@ -10,7 +11,13 @@ import (
 
 type ISchema struct {
 	// types the map where key is the name of the type (or included Schema).
-	types    map[string]Type
+	types map[string]Type
+
+	// unnamed the generated names of the unnamed types, in the order they were
+	// added. Those names are made of heap addresses, so sorting them gives no
+	// reproducible order.
+	unnamed []string
+
 	rootNode Node
 }
 
@@ -22,6 +29,32 @@ func New() ISchema {
 
 func (s ISchema) TypesList() map[string]Type {
 	return s.types
+}
+
+// TypeNames returns the names of all types in a reproducible order: unnamed
+// types first, in the order they were added, then the named ones sorted.
+func (s ISchema) TypeNames() []string {
+	names := make([]string, 0, len(s.types))
+	seen := make(map[string]struct{}, len(s.unnamed))
+	for _, n := range s.unnamed {
+		if _, ok := s.types[n]; !ok {
+			continue
+		}
+		if _, ok := seen[n]; ok {
+			continue
+		}
+		seen[n] = struct{}{}
+		names = append(names, n)
+	}
+
+	i := len(names)
+	for n := range s.types {
+		if _, ok := seen[n]; !ok {
+			names = append(names, n)
+		}
+	}
+	sort.Strings(names[i:])
+	return names
 }
 
 // MustType returns *ISchema or panic if not found.
@@ -58,6 +91,7 @@ func (s *ISchema) AddNamedType(name string, typ *ISchema, rootFile *fs.File, beg
 func (s *ISchema) AddUnnamedType(typ *ISchema, rootFile *fs.File, begin bytes.Index) string {
 	name := fmt.Sprintf("#%p", typ)
 	s.addType(name, typ, rootFile, begin)
+	s.unnamed = append(s.unnamed, name)
 	return name
 }
 
@@ -69,6 +103,9 @@ func (s *ISchema) addType(name string, schema *ISchema, rootFile *fs.File, begin
 }
 
 func (s *ISchema) AddType(n string, t Type) {
+	if _, ok := s.types[n]; !ok && len(n) != 0 && n[0] == '#' {
+		s.unnamed = append(s.unnamed, n)
+	}
 	s.types[n] = t
 }
 
